@@ -273,7 +273,22 @@ class C09(Property):
     id = "C09"
     title = "Sequence elements behave as Python lists of member elements"
     proof_module = "Proofs.C09"
-    theorems = []
+    theorems = [
+        "Flatland.C09.Proofs.step_refines",
+        "Flatland.C09.Proofs.run_refines",
+        "Flatland.C09.Proofs.members_typed",
+        "Flatland.C09.Proofs.items_eq_members",
+        "Flatland.C09.Proofs.positional_step",
+        "Flatland.C09.Proofs.C09_full_fails",
+        "Flatland.C09.Proofs.C09_fullMembers_fails",
+    ]
+    level_text = "proof (partial)"
+    level_note = ("step_refines/run_refines: refinement to the CPython list functions for every listed call, over the "
+                  "(value,u) abstraction and scalar (Integer/String) member schemas; positional_step for every call and "
+                  "every member schema; the value-only reading (C09_Full) and arbitrary member schemas "
+                  "(C09_FullMembers) are refuted by witnesses (KF-C09-a, KF-C09-b); Dict/List members, set_default and "
+                  "sort() without key rest on correspondence + the real-list oracle")
+    technique = "refinement proof (Lean 4) + differential testing against the implementation and a real Python list"
     trusted_base = [
         "CPython list semantics (index normalisation, PySlice_AdjustIndices, slice assignment/deletion, insert "
         "clamping, stable sort) reproduced in lean/Flatland/PyList.lean; validated against the real `list` type by "
